@@ -322,6 +322,42 @@ def _routes(draw, sizes):
     return {"n": n, "routes": [[list(q) for q in r] for r in routes], "queries": qs}
 
 
+def check_twins(case: dict):
+    """mazes of different shapes holding the same flags in the same flat order, solved one after the other in one process"""
+    from mzverif.props import C13
+
+    nt = False
+    for r, c in case["order"]:
+        g = {"r": r, "c": c, "cl": case["cl"]}
+        a = M.adj(g)
+        m = L.lattice(g)
+        cells = sorted(a)
+        for s_ in cells:
+            dist = M.bfs(a, s_)
+            for e_ in cells:
+                if e_ not in dist:
+                    try:
+                        res = m.find_shortest_path(s_, e_)
+                    except ValueError:
+                        continue
+                    except Exception as ex:  # noqa: BLE001
+                        raise Violation(f"C02:twins:disconnected-raises:{type(ex).__name__}", f"{r}x{c} {s_}->{e_}: {str(ex)[:150]}")
+                    raise Violation("C02:twins:disconnected-returned-path", f"{r}x{c} {s_}->{e_}: {np.asarray(res).tolist()}")
+                res = call("C02:twins", m.find_shortest_path, s_, e_)
+                path = L.as_cells(np.asarray(res))
+                prob = M.path_problems(g, a, path, start=s_, end=e_, need_shortest=False, need_simple=False)
+                require(prob is None, "C02:twins:unsound", f"{r}x{c} (queried in the order {case['order']}) {s_}->{e_}: {prob}; path={path}")
+                require(len(path) - 1 == dist[e_], "C02:twins:not-shortest", f"{r}x{c} {s_}->{e_}: {len(path) - 1} steps, minimum {dist[e_]}")
+                nt = nt or len(path) >= 3
+    return {"nt": nt, "labels": ["twins"]}
+
+
+def _twins_strategy():
+    from mzverif.props import C13
+
+    return C13._twins()
+
+
 def _exhaustive_medium(shard: int, nshards: int):
     yield from _exhaustive_cases(shard, nshards, G.medium_shapes())
 
@@ -370,5 +406,6 @@ def subs(tier: str):
         ),
         Sub(name="query-sequences", check=check_sequence, kind="hypothesis", strategy=lambda: _sequences(10 if quick else 20), examples=60 if quick else 1000),
         Sub(name="competing-routes-at-scale", check=check_routes, kind="hypothesis", strategy=lambda: _routes([61, 47, 80, 100] if quick else [61, 47, 80, 100, 127, 150]), examples=3 if quick else 30),
+        Sub(name="same-flags-other-shape", check=check_twins, kind="hypothesis", strategy=_twins_strategy, examples=15 if quick else 300),
         Sub(name="generated-mazes-with-metadata", check=check_generated, kind="hypothesis", strategy=lambda: _generated(7 if quick else 10), examples=40 if quick else 600),
     ]
